@@ -21,12 +21,12 @@ PROFILES = {
     "C06": {"g1": 1.0, "init_rules": 0.8, "w": {"addrule": 5, "rmrule": 1, "addpage": 8}, "r": {"resolution": 6, "global": 3}},
     "C07": {"g1": 0.9, "w": {"addlinks": 7, "batch": 5, "create": 4}, "r": {"network": 8}},
     "C08": {"g1": 0.9, "w": {"addlinks": 7, "batch": 5, "create": 4}, "r": {"welinks": 8}},
-    "C09": {"g1": 0.9, "w": {"addpage": 10, "addpages": 4, "create": 3}, "r": {"paginate": 8, "pages": 1}},
-    "C10": {"g1": 0.9, "w": {"addlinks": 8, "batch": 5, "addpage": 5, "create": 3}, "r": {"paginatelinks": 8}},
+    "C09": {"g1": 0.9, "w": {"addpage": 10, "addpages": 4, "create": 3}, "r": {"paginate": 8, "pages": 1, "helpers": 1}},
+    "C10": {"g1": 0.9, "w": {"addlinks": 8, "batch": 5, "addpage": 5, "create": 3}, "r": {"paginatelinks": 8, "helpers": 2}},
     "C11": {"w": {"reopen": 4, "clear": 1.2}, "read_rate": 0.7},
     "C12": {"g1": 0.9, "init_rules": 0.5, "w": {"create": 5, "delete": 2, "reopen": 2, "addrule": 2, "clear": 0.6}, "r": {"global": 4}},
-    "C13": {"g1": 0.85, "w": {"create": 6, "addprefix": 3, "moveprefix": 2, "addrule": 2}, "r": {"hierarchy": 8}},
-    "C14": {"read_rate": 0.9},
+    "C13": {"g1": 0.9, "init_rules": 0.6, "w": {"create": 6, "addprefix": 3, "moveprefix": 2, "addrule": 3, "addlinks": 6, "batch": 3}, "r": {"hierarchy": 8}},
+    "C14": {"read_rate": 0.9, "init_rules": 0.7, "forget_rule": 0.5, "w": {"reopen": 2.5}},
     "C15": {"w": {"reopen": 0}},
     "C16": {},
     "C17": {"g1": 1.0, "r": {"helpers": 8}},
